@@ -15,6 +15,7 @@ BITSPEC = "peek_bits/read_bits/read_bit: specification stub over a symbolic byte
 TREE_UNITS = "lib/lh1_decoder.c:increment_for_code,make_group_leader,increment_node_freq,alloc_group,free_group"
 PARTNAME = {1: "lock-step with LZHUF", 2: "tree/count/leaf-map consistency", 4: "group consistency", 8: "free-group list",
             16: "group consistency: same group iff same count", 32: "group consistency: group_leader and num_groups",
+            64: "tree shape consistency", 128: "count consistency (sorted, sums, root <= limit)", 256: "leaf-map consistency",
             14: "all consistency clauses", 15: "all clauses"}
 
 
@@ -54,6 +55,27 @@ def rebuild(n, lim, parts, tier, timeout):
                        "asserted here: %s" % (n, lim, PARTNAME[parts]))
 
 
+def iter_(n, lim, parts, tier, timeout):
+    return dict(name="iter.n%d.p%d" % (n, parts), src="C02/iter.c", entry="harness_iter", defines=sc(n, lim) + ["PARTS=%d" % parts], unwind=2 * n + 1,
+                timeout=timeout, tier=tier, units=["lib/lh1_decoder.c:make_group_leader,increment_node_freq,alloc_group,free_group"],
+                bounds="NUM_CODES=%d (scaled), limit %d: ARBITRARY state satisfying the loop invariant Inv'(x) for an arbitrary pending node x != root; ONE loop iteration "
+                       "(real make_group_leader + increment_node_freq) vs one pass of LZHUF update()'s loop; asserted here: %s" % (n, lim, PARTNAME[parts]),
+                stubs=["the loop of increment_for_code is represented by its body, called in the order that skeleton.n%d shows the real loop uses" % min(n, 6)])
+
+
+def iter_aux(n, lim, tier):
+    return [
+        dict(name="skeleton.n%d" % n, src="C02/iter.c", entry="harness_skeleton", defines=sc(n, lim) + ["SKELETON", "SK=3"],
+             rename_defs={"lib/lh1_decoder.c": ["make_group_leader", "increment_node_freq", "reconstruct_tree"]}, unwind=2 * n + 1,
+             unwindset={"increment_for_code.0": 4, "harness_skeleton.0": 4, "harness_skeleton.1": 4}, timeout=120, tier=tier,
+             units=["lib/lh1_decoder.c:increment_for_code"],
+             bounds="NUM_CODES=%d: arbitrary state (no invariant), arbitrary return values of make_group_leader, walks of up to 3 iterations: call sequence and arguments of the real loop" % n,
+             stubs=["make_group_leader / increment_node_freq / reconstruct_tree: recording stubs (their behaviour: iter.*, rebuild.*)"]),
+        dict(name="entry.n%d" % n, src="C02/iter.c", entry="harness_entry", defines=sc(n, lim), unwind=2 * n + 1, timeout=200, tier=tier,
+             bounds="NUM_CODES=%d, limit %d: invariant and root count < limit imply the loop invariant after the statements before the loop" % (n, lim)),
+    ]
+
+
 HARNESSES = [
     # 1. H02.step
     step(3, 3, "both", 120), step(4, 3, "both", 200), step(6, 3, "both", 400),
@@ -64,6 +86,12 @@ HARNESSES = [
     inv(4, 32768, 1, "thorough", 1800, ".real"), inv(4, 32768, 2, "thorough", 1800, ".real"),
     inv(4, 32768, 4, "thorough", 1800, ".real"), inv(4, 32768, 8, "thorough", 1800, ".real"),
     inv(5, 48, 1, "thorough", 1800), inv(5, 48, 2, "thorough", 1800), inv(5, 48, 16, "thorough", 1800), inv(5, 48, 32, "thorough", 1800), inv(5, 48, 8, "thorough", 1800),
+    # 2b. H02.iter: the same inductive claim cut to one loop iteration (reaches NUM_CODES = 6)
+    iter_(4, 32, 15, "both", 300),
+] + iter_aux(4, 32, "both") + iter_aux(6, 64, "both") + [
+    iter_(5, 48, 1, "thorough", 1800), iter_(5, 48, 2, "thorough", 1800), iter_(5, 48, 4, "thorough", 1800), iter_(5, 48, 8, "thorough", 1800),
+    iter_(6, 64, 1, "thorough", 1800), iter_(6, 64, 8, "thorough", 1800), iter_(6, 64, 16, "thorough", 2400), iter_(6, 64, 32, "thorough", 2400),
+    iter_(6, 64, 64, "thorough", 2400), iter_(6, 64, 128, "thorough", 2400), iter_(6, 64, 256, "thorough", 2400),
     dict(name="walk.n4", src="C02/inv.c", entry="harness_walk", defines=sc(4, 32) + ["WALK_HARNESS", "BITS_SPEC"],
          rename_defs=dict(BITS, **{"lib/lh1_decoder.c": ["increment_for_code"]}), unwind=9, unwindset={"read_code.0": 4, "harness_walk.1": 4}, timeout=120,
          units=["lib/lh1_decoder.c:read_code"], bounds="NUM_CODES=4: arbitrary invariant-satisfying tree, symbolic 2-byte bit string, any alignment, any end of data",
@@ -77,9 +105,8 @@ HARNESSES = [
          units=["lib/lh1_decoder.c:increment_for_code"],
          bounds="NUM_CODES=4, limit 32: arbitrary invariant-satisfying state with ANY root count 4..32, arbitrary symbol: rebuild called iff root count == limit, before the increment",
          stubs=["reconstruct_tree: recording stub"]),
-    rebuild(3, 16, 15, "both", 200), rebuild(4, 32, 1, "both", 450), rebuild(4, 32, 14, "both", 450),
-    rebuild(5, 48, 1, "thorough", 1800),
-    dict(name="rebuild_pre.n4", src="C02/rebuild.c", entry="harness_rebuild_pre", defines=sc(4, 32), unwind=9, timeout=120, tier="thorough",
+    rebuild(3, 16, 15, "both", 400), rebuild(4, 32, 1, "both", 500), rebuild(4, 32, 14, "both", 500),
+        dict(name="rebuild_pre.n4", src="C02/rebuild.c", entry="harness_rebuild_pre", defines=sc(4, 32), unwind=9, timeout=120, tier="thorough",
          bounds="NUM_CODES=4: invariant with root count == limit implies the weaker precondition (leaf entries only) that C09 lh1.rebuild uses"),
     dict(name="rebuild_step.n3", src="C02/rebuild.c", entry="harness_rebuild_step", defines=sc(3, 16), unwind=7, unwindset=rb_unwind(3), timeout=1800, tier="thorough",
          units=[TREE_UNITS + ",reconstruct_tree"],
@@ -94,10 +121,6 @@ HARNESSES = [
     dict(name="copy.c12", src="C02/copy.c", defines=["MAXCOUNT=12"], rename_defs={"lib/lh1_decoder.c": ["read_code", "read_offset"]},
          unwindset={"lha_lh1_read.0": 13}, flags=["--arrays-uf-always"], timeout=200, units=["lib/lh1_decoder.c:lha_lh1_read,output_byte"],
          bounds="real constants: arbitrary 4 KiB window and write position; one command: any literal, or any copy of length 3..12 at any distance 0..4095 (self-overlap, ring seam); failures of either read",
-         stubs=["read_code: arbitrary symbol 0..313 or failure (walk.*, inv.*)", "read_offset: arbitrary 12-bit distance or failure (offset)"]),
-    dict(name="copy.c20", src="C02/copy.c", defines=["MAXCOUNT=20"], rename_defs={"lib/lh1_decoder.c": ["read_code", "read_offset"]},
-         unwindset={"lha_lh1_read.0": 21}, flags=["--arrays-uf-always"], timeout=1800, tier="thorough", mem_gb=6, units=["lib/lh1_decoder.c:lha_lh1_read,output_byte"],
-         bounds="as copy.c12 with copy lengths 3..20",
          stubs=["read_code: arbitrary symbol 0..313 or failure (walk.*, inv.*)", "read_offset: arbitrary 12-bit distance or failure (offset)"]),
     dict(name="copy.c28", src="C02/copy.c", defines=["MAXCOUNT=28"], rename_defs={"lib/lh1_decoder.c": ["read_code", "read_offset"]},
          unwindset={"lha_lh1_read.0": 29}, flags=["--arrays-uf-always"], timeout=1800, tier="thorough", mem_gb=6, units=["lib/lh1_decoder.c:lha_lh1_read,output_byte"],
